@@ -21,7 +21,7 @@ HOW.
                `pi` (HP), the float-array constructors `zeros/ones/empty/full/zeros_like/ones_like` (object arrays of
                HP unless an integer/bool dtype is asked for), the transcendental ufuncs `sqrt/exp/log/power/abs`
                (numeric arrays such as the float result of `factorial2` are first promoted exactly to HP; HP
-               scalars are handled), and `sum/prod` (NumPy refuses a tuple of axes for object arrays: reduced one axis
+               scalars are handled), the predicates `isfinite/isnan/isinf`, and `sum/prod` (NumPy refuses a tuple of axes for object arrays: reduced one axis
                at a time).  Nothing else of NumPy is re-implemented: indexing, broadcasting, `tensordot`,
                `transpose`, `squeeze`, `arange`, `maximum`, `linalg.norm` are NumPy's own code on object arrays.
  * `hp_kernel()`  context manager: swaps `np` in every loaded `gbasis.*` module that has such a global (and, in
@@ -94,6 +94,15 @@ def _conv(x):
     if isinstance(x, (complex, _np.complexfloating)):
         return mpc(mpf(float(x.real)), mpf(float(x.imag)))
     return None
+
+
+_MP_UNARY = {
+    "sin": mpmath.sin, "cos": mpmath.cos, "tan": mpmath.tan, "arcsin": mpmath.asin, "arccos": mpmath.acos,
+    "arctan": mpmath.atan, "sinh": mpmath.sinh, "cosh": mpmath.cosh, "tanh": mpmath.tanh, "arcsinh": mpmath.asinh,
+    "arccosh": mpmath.acosh, "arctanh": mpmath.atanh, "log2": lambda x: mpmath.log(x, 2), "log10": mpmath.log10,
+    "log1p": mpmath.log1p, "expm1": mpmath.expm1, "exp2": lambda x: mpmath.power(2, x), "cbrt": mpmath.cbrt,
+    "rint": mpmath.nint, "trunc": lambda x: mpmath.floor(x) if x >= 0 else mpmath.ceil(x),
+}
 
 
 class HP:
@@ -253,6 +262,19 @@ class HP:
     def erf(self):
         return HP._mk(mpmath.erf(self.v))
 
+    def arctan2(self, o):
+        return HP._mk(mpmath.atan2(self.v, _conv(o)))
+
+    def hypot(self, o):
+        return HP._mk(mpmath.hypot(self.v, _conv(o)))
+
+    def __getattr__(self, name):
+        # other unary math methods NumPy's object loops may look up (np.sin(obj_array) calls elem.sin()), from mpmath
+        fn = _MP_UNARY.get(name)
+        if fn is None:
+            raise AttributeError(name)
+        return lambda: HP._mk(fn(self.v))
+
     @property
     def real(self):
         return HP._mk(mpmath.re(self.v))
@@ -403,6 +425,22 @@ class NPProxy:
 
     def float_power(self, x, y, *a, **kw):
         return self.power(x, y, *a, **kw)
+
+    # predicates NumPy has no object loop for
+    def _pred(self, name, fn, x, *a, **kw):
+        if self._on and (isinstance(x, HP) or (isinstance(x, _ARR) and x.dtype == object)):
+            out = _np.frompyfunc(lambda e: bool(fn(_conv(e))), 1, 1)(x)
+            return bool(out) if isinstance(x, HP) else out.astype(bool)
+        return getattr(_np, name)(x, *a, **kw)
+
+    def isfinite(self, x, *a, **kw):
+        return self._pred("isfinite", mpmath.isfinite, x, *a, **kw)
+
+    def isnan(self, x, *a, **kw):
+        return self._pred("isnan", mpmath.isnan, x, *a, **kw)
+
+    def isinf(self, x, *a, **kw):
+        return self._pred("isinf", mpmath.isinf, x, *a, **kw)
 
     # reductions: NumPy refuses several axes at once for object arrays ("not reorderable")
     def _reduce(self, name, a, axis=None, **kw):
